@@ -46,8 +46,8 @@ type bkmEngine struct{}
 
 func init() { engines["bkm"] = bkmEngine{} }
 
-var bkmNames = []string{"", "work", "@work", "Work", "privat", "@ünï", "my project", "@a b", "q\"uote", "it's", "@default", "default", "z", "@Z", "読む", "x-1_y"}
-var bkmFiles = []string{"w.klg", "x.klg", "sub dir/w.klg", "other/x.klg", "sub dir/ü file.klg", "q'uo\"te.klg", "bad.klg", "new1.klg", "new 2.klg", "nodir/n.klg", "empty.klg"}
+var bkmNames = []string{"", "work", "@work", "Work", "privat", "@ünï", "my project", "@a b", "q\"uote", "it's", "@default", "default", "z", "@Z", "読む", "x-1_y", "🚀", "@𝓌ork"}
+var bkmFiles = []string{"w.klg", "x.klg", "🙂 dir/e.klg", "sub dir/w.klg", "other/x.klg", "sub dir/ü file.klg", "q'uo\"te.klg", "bad.klg", "new1.klg", "new 2.klg", "nodir/n.klg", "empty.klg"}
 
 func normName(typed string) string {
 	n := strings.TrimPrefix(typed, "@")
@@ -61,7 +61,7 @@ func (bkmEngine) generate(property string, seed int64, index int, tier string) *
 	r := newRng(seed, "bkm", property, fmt.Sprint(index))
 	today := time.Date(2024, 5, 17, 10, 0, 0, 0, time.UTC)
 	bc := &BkmCase{Files: map[string]string{}, NoCfgDir: r.Chance(1, 3), BaseUnix: today.Unix()}
-	for _, f := range []string{"w.klg", "x.klg", "sub dir/w.klg", "other/x.klg", "sub dir/ü file.klg", "q'uo\"te.klg"} {
+	for _, f := range []string{"w.klg", "x.klg", "🙂 dir/e.klg", "sub dir/w.klg", "other/x.klg", "sub dir/ü file.klg", "q'uo\"te.klg"} {
 		d := genDoc(r, docOpts{today: today, maxRecords: 2})
 		bc.Files[f] = d.render()
 	}
@@ -131,6 +131,8 @@ func (bkmEngine) generate(property string, seed int64, index int, tier string) *
 			op.Plan.WriteCut = r.Intn(500)
 		case k < 6:
 			op.Plan.ReadNth = r.Range(1, 3)
+		case k == 10:
+			op.Plan.MetaFailNth = r.Range(1, 4)
 		case k == 6 && i > n/2:
 			op.RotSet = true
 			op.Rot = r.Pick([]string{"{", "[{\"name\":\"a\"}]", "[{\"name\":\"a\",\"path\":\"relative/x.klg\"}]", "not json", "[1,2]", "[{\"name\":1,\"path\":\"/x\"}]", "[", "\x00\x00", "[{\"name\":\"a\",\"path\":null}]"})
@@ -392,7 +394,8 @@ func (bkmEngine) execute(sc *Scenario) *Outcome {
 		}
 		post, postClass, rawAfter := readDB(db)
 		out.Log = append(out.Log, "db "+fnv(normRoot(rawAfter, root)))
-		faulted := res.Killed || res.Fired["write_error"] > 0 || res.Fired["read_error"] > 0 || res.Fired["torn_write"] > 0
+		errFault := res.Fired["write_error"] > 0 || res.Fired["read_error"] > 0 || res.Fired["meta_error"] > 0
+		faulted := res.Killed || res.Fired["torn_write"] > 0 || (errFault && res.Failed)
 		outcome := "ok"
 		if res.Failed {
 			outcome = "fail"
@@ -415,9 +418,6 @@ func (bkmEngine) execute(sc *Scenario) *Outcome {
 			continue
 		}
 		if faulted {
-			if res.Fired["write_error"] > 0 && !res.Failed && !res.Killed {
-				report(i, op, argv, "write-error-ignored", "writing the database failed (injected ENOSPC) but klog reported success")
-			}
 			// the database is whatever is on disk now
 			if postClass == "valid" {
 				model, known = post, true
